@@ -35,6 +35,7 @@ fn main() {
         "C09" => props::c09::run(tier),
         "C10" => props::c10::run(tier),
         "C12" => props::c12::run(tier),
+        "C13" => props::c13::run(tier),
         "C14" => props::c14::run(tier),
         "C15" => props::c15::run(tier),
         "C16" => props::c16::run(tier),
